@@ -16,6 +16,7 @@ EXPLANATION = (
     "wc_similarity returns exactly 1 on the branch guarded by equality of the two normalised strings, before any fingerprint code, "
     "and both strings come from normalize_smiles of the two arguments; the benchmark normalises both sides with the same function.  "
     "Idempotence / spelling invariance of RDKit canonicalisation and symmetry / range of fingerprint similarities are NOT decided."
+    ' (O3) the two difference lists of _get_diff_mol are filled symmetrically; (O4) the atom-map removal applied first keeps the molecule (shared with C15-Rg1/Rg2); (O5) every return of normalize_smiles is a join of recursive results or canon_smiles(...).'
 )
 ASSUMPTIONS = ["Python's list.sort is stable and orders tuples lexicographically"]
 
